@@ -398,18 +398,17 @@ func spzFixed(run *hx.Run, r *hx.Rng, thorough bool) {
 		d.Points = []pointDesc{p}
 		run.Add(spzCase(d))
 	}
-	// degree 3 (all 45 SH bytes present): every byte field takes every value 0..255 in each version
+	// Per version 256 single-point files: every non-SH byte field takes every value 0..255 in each
+	// version.  Degree 3 (all 45 SH bytes present) on the even v of version 1 and the odd v of
+	// version 2, so every SH byte field takes every value 0..255 as well (its decoding does not depend
+	// on the version); the other files cycle through degrees 0..2.
 	for version := uint32(1); version <= 2; version++ {
 		for v := 0; v < 256; v++ {
-			single(version, 3, v)
-		}
-	}
-	// degrees 0..2: a sweep of 32 values per field, each version
-	for version := uint32(1); version <= 2; version++ {
-		for deg := uint8(0); deg <= 2; deg++ {
-			for v := int(deg); v < 256; v += 8 {
-				single(version, deg, v)
+			deg := uint8(3)
+			if uint32(v%2) != version-1 {
+				deg = uint8((v / 2) % 3)
 			}
+			single(version, deg, v)
 		}
 	}
 	run.Count("spz:exhaustive-single-point-files")
